@@ -828,6 +828,7 @@ func rulePostMutationInfallible(c *Ctx, rule string) {
 var fsMutators = []string{"os.Mkdir", "os.MkdirAll", "os.Create", "os.OpenFile", "os.WriteFile", "os.Remove", "os.RemoveAll", "os.Rename", "os.Truncate", "os.File.Write", "os.File.WriteAt", "os.File.WriteString", "os.File.Truncate"}
 
 func ruleProbeReadOnly(c *Ctx, rule string) {
+	c.Robust(rule)
 	c.Rule(rule, "selecting a database that does not exist changes nothing: in OpenRelation no call that precedes the `database does not exist` refusal reaches (through the call graph) a function that creates, writes or removes a file or directory — the existence probe is read-only")
 	w := c.W
 	f := c.NeedFunc(rule, "storage.OpenRelation")
@@ -917,6 +918,7 @@ func isBoolVar(f *Func, id *ast.Ident) bool {
 // ---- no loop walks the recency list while its body reorders it -----------------------------------------
 
 func ruleListIterationStable(c *Ctx, rule string) {
+	c.Robust(rule)
 	c.Rule(rule, "iterator stability: a loop that steps through the recency list (e = e.Prev()/e.Next()) does not, in its body, reach a call that reorders or unlinks list elements (MoveToFront, PushFront, Remove, …) — the flush rewrites every page through update → setCache → MoveToFront, so walking the list there revisits or skips elements and dirty pages are left unwritten yet treated as flushed; the flush iterates the cache map, whose iteration is unaffected by updates of existing keys")
 	w := c.W
 	mut := []string{"list.List.MoveToFront", "list.List.MoveToBack", "list.List.PushFront", "list.List.PushBack", "list.List.Remove", "list.List.InsertBefore", "list.List.InsertAfter", "list.List.MoveBefore", "list.List.MoveAfter", "list.List.Init"}
